@@ -27,6 +27,12 @@ def parse_tlc(path):
         for line in f:
             if line.startswith('<<"EDGE", '):
                 edges.append(_unq(line, 'EDGE'))
+            elif line.startswith('<<"NODE", '):
+                # compact form: one line per state, edges listed with post = "same" for self-loops
+                n = _unq(line, 'NODE')
+                for e in n['edges']:
+                    edges.append({'pre': n['pre'], 'act': e['act'], 'exp': e['exp'],
+                                  'post': n['pre'] if e['post'] == 'same' else e['post']})
             elif line.startswith('<<"INST", '):
                 inst = _unq(line, 'INST')
             else:
